@@ -5,6 +5,8 @@ import TornadoModel.C44.Td
 import TornadoModel.C44.FloatRej
 import TornadoModel.C44.FloatRt
 import TornadoModel.C44.Dt
+import TornadoModel.C44.TdRej
+import TornadoModel.C44.DtRej
 namespace TornadoModel.C44
 open Spec
 
@@ -306,5 +308,49 @@ theorem datetime_roundtrip (y mo d h mi s : Nat) (hv : validDt y mo d h mi s) :
 
 example : showDtIso 2024 2 29 23 59 7 = lit "2024-02-29 23:59:07" := by decide +kernel
 example : validDt 2024 2 29 23 59 7 := by unfold validDt; decide +kernel
+
+/-! ## bool flag without a value; timedelta: wrong type -/
+
+/-- **bool flag**: `--name` without `=value` sets a (single-valued) bool option to `True` and parsing continues -/
+theorem bool_flag_no_value (st : State) (a : Str) (rest : List Str) (o : Opt)
+    (h1 : startsWithDash a = true) (h2 : a ≠ [45, 45]) (heq : (partition 61 (a.dropWhile (· == 45))).2.1 = false)
+    (hl : lookup st (keyOf a) = some o) (ho : o.ty = .bool) (hm : o.multiple = false) (hh : o.isHelp = false) :
+    parseArgsLoop st (a :: rest) = parseArgsLoop (update st { o with value := some (.bool true) }) rest := by
+  have h2' : (a == [45, 45]) = false := by simpa using h2
+  have hb : parseBool (lit "true") = true := by decide +kernel
+  unfold keyOf at hl
+  rw [parseArgsLoop]
+  simp only [h1, Bool.not_true, Bool.false_eq_true, if_false, h2']
+  generalize partition 61 (a.dropWhile (· == 45)) = p at hl heq ⊢
+  obtain ⟨nm, eq, v⟩ := p
+  simp only [] at hl heq ⊢
+  subst heq
+  rw [hl]
+  simp [ho, Opt.parse, hm, parseOne, hh, hb]
+
+example : startsWithDash (lit "--debug") = true ∧ (partition 61 ((lit "--debug").dropWhile (· == 45))).2.1 = false
+    ∧ keyOf (lit "--debug") = lit "debug" := by decide +kernel
+
+/-- a timedelta option rejects (bare `Exception`, option unchanged) every non-empty text that does not start — after
+    whitespace — with a digit, a sign or a point -/
+theorem wrong_type_rejected_timedelta (o : Opt) (ho : o.ty = .timedelta) (hm : o.multiple = false) (s : Str) (hne : s ≠ [])
+    (h : ∀ c, (s.dropWhile isWs).head? = some c → isDigit c = false ∧ c ≠ 43 ∧ c ≠ 45 ∧ c ≠ 46) :
+    o.parse s = (o, some .exception) := by
+  simp [Opt.parse, hm, ho, parseOne, parseTimedelta_not_number s hne h, Except.map]
+
+example : ∀ c, ((lit " soon").dropWhile isWs).head? = some c → isDigit c = false ∧ c ≠ 43 ∧ c ≠ 45 ∧ c ≠ 46 := by
+  decide +kernel
+
+/-- a datetime option rejects (`Error`, option unchanged) every text containing a character that is not a digit, an ASCII
+    letter, whitespace, `-` or `:` — none of the ten formats can consume it -/
+theorem wrong_type_rejected_datetime (o : Opt) (ho : o.ty = .datetime) (hm : o.multiple = false) (s : Str)
+    (h : ∃ c ∈ s, isDigit c = false ∧ isAlpha c = false ∧ isWs c = false ∧ c ≠ 45 ∧ c ≠ 58) :
+    o.parse s = (o, some .error) := by
+  obtain ⟨c, hc, h1, h2, h3, h4, h5⟩ := h
+  have hb : dtCh c = false := by simp [dtCh, h1, h2, h3, h4, h5]
+  simp [Opt.parse, hm, ho, parseOne, parseDatetime_bad s c hc hb]
+
+example : ∃ c ∈ lit "2024/02/29", isDigit c = false ∧ isAlpha c = false ∧ isWs c = false ∧ c ≠ 45 ∧ c ≠ 58 := by
+  decide +kernel
 
 end TornadoModel.C44
